@@ -18,6 +18,21 @@ CHECKS = {
  "C04": dict(cat="model_checking", tech="stateless model checking: delay-bounded schedule enumeration with begin/end-split storage operations and in-flight/callback monitors",
    text="Storage operations are split into begin and end scheduling points so that every relative placement of operation ends and begins within the deviation bound is explored; monitors count in-flight source reads and destination operations, per-node fetch/push counts and the callback order; callback errors are injected (F=1).",
    note="Bounds D<=2 (main scenarios, three base schedulers) quick, D<=3 thorough. Memory stores on both sides."),
+ "C06": dict(cat="model_checking", tech="explicit operation-sequence enumeration against a content-map/tag-map reference model (lockstep), plus delay-bounded schedule enumeration with a permutation-serialisability oracle",
+   text="Every history of mutating operations up to the depth bound is replayed on fresh real stores (memory, OCI layout, file store with its options) and the complete observation is compared with a reference model after every step (file store: the statement's clauses as invariants plus a differential 'refused operations are no-ops' oracle); 2-3 goroutine mixes on colliding keys are explored under every schedule within the deviation bound and must end in a state some interleaving of the same operations produces.",
+   note="Depth 5 (memory) / 4 (OCI, file) quick, 6/5 thorough; D<=2 quick, D<=3 thorough. OCI AutoGC off here (C09)."),
+ "C07": dict(cat="model_checking", tech="exhaustive enumeration of push orders / delete-GC-reopen sequences on real stores against the generator's inverse edge list; delay-bounded schedules for concurrent pushes",
+   text="For every DAG of the universe, every subset and permutation of push order on each store kind, and for OCI every sequence of up to 3 Delete/GC/reopen steps (map-order deviations included), Predecessors of every node is compared as a multiset with the generator's inverse edges restricted to stored parents.",
+   note="U(4) (+U(5) memory in thorough); OCI shapes need distinct digests."),
+ "C08": dict(cat="model_checking", tech="explicit operation-sequence enumeration on a real OCI layout with a raw-directory validator and live-vs-reopened (rw, fs.FS, tar) observation equality after every step",
+   text="Every history up to depth 4/5 over Push/Tag/Untag/Delete/GC (+SaveIndex) in four AutoSaveIndex x AutoGC configurations; after each step the directory is validated against image-layout.md and reopened three ways, and all answers are compared with the live store.",
+   note="Quiescent points = API call returns. Universe: 2 blobs, 2 manifests, one sha512 blob, 3 references."),
+ "C09": dict(cat="model_checking", tech="explicit history enumeration (tagging histories x delete targets x GC positions x map-iteration orders) on a real OCI layout against a least-fixed-point garbage model; operation budget for termination",
+   text="Histories over referrer-heavy shapes are replayed on real layouts; after every Delete/GC the store's answers and the blobs/ listing are compared with a model written from the property text; map iteration order at the Delete/GC ranges is an explored choice; non-termination is decided by a per-call file-system operation budget.",
+   note="States where the statement's clauses conflict are counted and not judged."),
+ "C10": dict(cat="fault_enumeration", tech="exhaustive crash-point enumeration: disk frozen before every mutating file-system operation of the interrupted call, for every scripted history, then recovery check on the real directory",
+   text="For every history of length <= 4 (5 thorough) and every mutating file-system operation of its last call, the layout is frozen at that point (as SIGKILL would leave it), reopened with oci.New and checked against the recovery oracle (opens, blobs match names, index entries name existing blobs, tag map old or new, earlier effects present).",
+   note="Process-kill model at system-call boundaries; vos shim's operation sequence is the os package's (strace conformance described in DESIGN.md)."),
 }
 
 checks, na = [], []
